@@ -506,6 +506,13 @@ func GetFingerprint(q string) string {
 					if Debug {
 						fmt.Println("Quote begin")
 					}
+					if pr == r && cpFromOffset == qi && fi > 0 && f[fi-1] == '?' {
+						// A quote that re-opens directly after the closing quote of
+						// the same kind is an escaped quote inside one literal:
+						// 'a''b' -> ?, not ??.  Drop the ? already written; the
+						// final closing quote writes it again.
+						fi--
+					}
 					s = inQuote
 					quoteChar = r
 					cpToOffset = qi
